@@ -647,7 +647,7 @@ func (c *Client) sendLine(line string) error {
 }
 
 // Rcpt issues a RCPT command"""))
-alarming("auth-decode-helper",
+variant("auth-decode-helper",
   ("conn.go", """		response, err = decodeSASLResponse(encoded)
 		if err != nil {
 			c.writeResponse(454, EnhancedCode{4, 7, 0}, "Invalid base64 data")
